@@ -19,7 +19,7 @@ func C10(c *Ctx) {
 	r := c.R
 	r.Explain = "Decided statically: (R1) sender binding — on every path of node.processMessage to Do(message.Event, request) there is an equality test between the participant id carried by the request and the id registered for message.SenderAddr whose failure edge returns an error, and the extraction covers every request type that carries a ParticipantId; " +
 		"(R2) envelope binding — the bytes covered by the signature (storage.Message.Bytes) include the event name and the round identifier, so a signed message is effective only for the step and round its author produced it for; (R3) inside the FSM the record mutated and written back is the one addressed by request.ParticipantId, under the phase's status gate; " +
-		"(R4) every request the airgapped machine builds names the machine's own participant id; (R5) verification cannot be left switched off (skip switch pairing, C09/R3). " +
+		"(R4) every request the airgapped machine builds names the machine's own participant id; (R5) verification cannot be left switched off (skip switch pairing, C09/R3); (R7) the sender is authenticated at all: C09/R1 and C09/R2 re-evaluated under this property. " +
 		"NOT decided: ed25519; the (S,P)/replay quantifier as executed cases."
 	r.Trusted = []string{"crypto/ed25519", "go/ssa"}
 	r.Rule("C10/R1", "sender binding: request.ParticipantId == IDs[message.SenderAddr] before the FSM event; all request types covered", 3)
@@ -28,6 +28,7 @@ func C10(c *Ctx) {
 	r.Rule("C10/R4", "airgapped requests carry the machine's own participant id", 6)
 	r.Rule("C10/R5", "verification cannot stay switched off after reinit", 2)
 	r.Rule("C10/R6", "step binding by payload: each DKG contribution request is valid only with its own step's non-empty field (the event name is not signed, F-C10-2, so this is what keeps a message of another step from being accepted as this step's)", 4)
+	r.Rule("C10/R7", "the sender named in a message is authenticated: effects only behind verifyMessage, which accepts only a valid ed25519 signature under the key registered for message.SenderAddr (= C09/R1, C09/R2)", 12)
 	nonEmptyContributionAs(c, "C10/R6")
 	c10SenderBinding(c)
 	c10Envelope(c)
@@ -53,6 +54,14 @@ func C10(c *Ctx) {
 	c09Skip(c)
 	for _, o := range r.Obs[before:] {
 		o.Rule = "C10/R5"
+	}
+	// R7: the binding to the sender means something only if the sender's signature is checked: reuse C09/R1 (no effect
+	// before verification) and C09/R2 (verifyMessage accepts only a valid signature by the sender's registered key)
+	before = len(r.Obs)
+	c09Effects(c)
+	c09Verify(c)
+	for _, o := range r.Obs[before:] {
+		o.Rule = "C10/R7"
 	}
 }
 
